@@ -3,6 +3,7 @@ package midix
 import (
 	"fmt"
 	"log/slog"
+	"math"
 
 	"github.com/berquerant/crd/errorx"
 	"github.com/berquerant/crd/logx"
@@ -22,8 +23,9 @@ type TrackNoSelectorImpl struct {
 }
 
 func NewTrackNoSelector(trackNum int) (*TrackNoSelectorImpl, error) {
-	if trackNum < 1 {
-		return nil, errorx.Invalid("TrackNoSelector requires positive trackNum, %d", trackNum)
+	// the SMF header stores the number of tracks in 16 bits
+	if trackNum < 1 || trackNum > math.MaxUint16 {
+		return nil, errorx.Invalid("TrackNoSelector requires trackNum between 1 and %d, %d", math.MaxUint16, trackNum)
 	}
 	return &TrackNoSelectorImpl{
 		trackNum: trackNum,
